@@ -225,8 +225,13 @@ def run_check(prop, tier, seed, keep=False):
                 new_fams = sorted(set(leniency) - set(pin))
                 if new_fams:
                     print('LENIENCY-INFO property=%s malformed input families now accepted that were refused when pinned: %s' % (prop, new_fams))
-        os.makedirs(os.path.join(VERIF, 'evidence'), exist_ok=True)
-        json.dump(ev, open(os.path.join(VERIF, 'evidence', prop + '.json'), 'w'), indent=1)
+        # evidence/ describes runs against /repo only; a run against another tree (self-test mutants, seeded changes, benign
+        # refactorings: VERIF_REPO) leaves its evidence under .work/
+        other_tree = os.path.realpath(os.environ.get('VERIF_REPO', '/repo')) != os.path.realpath('/repo')
+        evdir = os.path.join(VERIF, '.work', 'evidence_other_tree') if other_tree else os.path.join(VERIF, 'evidence')
+        ev['tree'] = os.environ.get('VERIF_REPO', '/repo')
+        os.makedirs(evdir, exist_ok=True)
+        json.dump(ev, open(os.path.join(evdir, prop + '.json'), 'w'), indent=1)
         print('%s %s: %d events judged by TLC, %d distinct non-trivial, %d MC runs, %d states, %.1fs, %d violation signature(s)'
               % (prop, tier, n_events, len(hashes), len(mc_runs), states, time.time() - t0,
                  len(set(s for s, _, _ in violations))))
